@@ -74,8 +74,13 @@ fn gen_recursive(r: &mut Rng, k: K, inner: Spec) -> Spec {
     let n = gen_c09_n(r, k);
     let mut s = match k {
         K::Eft => {
-            let mk = *r.pick(&[K::Ema, K::Sma, K::Alma]);
-            let ma = Spec::un(mk, r.range(1, 12), Spec::echo());
+            // the smoothing slot accepts any view: the usual averages, and smoothers that overshoot
+            let mk = *r.pick(&[K::Ema, K::Sma, K::Alma, K::Ema, K::Sma, K::SuperSmoother, K::LaguerreFilter]);
+            let mut ma = Spec::un(mk, r.range(1, 12), Spec::echo());
+            if mk == K::LaguerreFilter {
+                ma.n = 0;
+                ma.p = *r.pick(GAMMAS);
+            }
             Spec::with_ma(K::Eft, n, inner, ma)
         }
         _ => Spec::un(k, if k.has_n() { n } else { 0 }, inner),
@@ -223,7 +228,14 @@ impl Prop for C09 {
         let chain = r.chance(0.3);
         let inner = if chain {
             let ki = *r.pick(RECURSIVE);
-            gen_recursive(r, ki, Spec::echo())
+            // a third level in a quarter of the chains ("any chain built from them")
+            let innermost = if r.chance(0.25) {
+                let kj = *r.pick(RECURSIVE);
+                gen_recursive(r, kj, Spec::echo())
+            } else {
+                Spec::echo()
+            };
+            gen_recursive(r, ki, innermost)
         } else {
             Spec::echo()
         };
@@ -491,7 +503,7 @@ impl Prop for C09 {
     }
 
     fn rule(&self) -> String {
-        "Views cycle systematically through Ema (default and sampled alpha), LaguerreFilter (gamma in {0,0.1..0.9,0.95}), SuperSmoother, RoofingFilter(N,M<=16), CyberCycle, TrendFlex, ReFlex, LaguerreRSI and EhlersFisherTransform over {Ema,Sma,Alma}; 30% of runs are two-level chains of these. N: 50% from the view's minimum to 9, 37% 10..64, 9% 128, 4% 1000. Mode 'recovery' (7 of 8 runs): two replicas of the same tree; one base stream of 0-400 values gets an independent fault realisation per replica (drop, duplicate, reorder, corrupt, spike bursts up to 500 S, up to 300 extra prefix values), then both receive the same persistently exciting tail inside [S/2,2S] (uniform noise, random walk or sinusoid+noise; exactly constant tails only for all-linear chains). Oracle: with T = T(view,N) from the documented pole radius, |out_A-out_B| <= tol*scale at every delivery in [T,2T] (tol 1e-9 linear, 1e-6 ratio-type; scale = max(S or output range, largest |out| in the window)). Mode 'bounded' (1 of 8): one replica, 1e5 (thorough 2e5, 5% 1e6) deliveries of a feed bounded by S in any of the 14 shapes; every output finite and within 1e6*S (linear) or the analytic bound 5 / 1 / ln199 (ratio-type). distinct = distinct (topology, feed lengths); non-trivial = prefixes actually differ and the window was compared, or a bounded run reached 1e5 deliveries."
+        "Views cycle systematically through Ema (default and sampled alpha), LaguerreFilter (gamma in {0,0.1..0.9,0.95}), SuperSmoother, RoofingFilter(N,M<=16), CyberCycle, TrendFlex, ReFlex, LaguerreRSI and EhlersFisherTransform over {Ema, Sma, Alma, SuperSmoother, LaguerreFilter}; 30% of runs are two-level chains of these, a quarter of which have a third level. N: 50% from the view's minimum to 9, 37% 10..64, 9% 128, 4% 1000. Mode 'recovery' (7 of 8 runs): two replicas of the same tree; one base stream of 0-400 values gets an independent fault realisation per replica (drop, duplicate, reorder, corrupt, spike bursts up to 500 S, up to 300 extra prefix values), then both receive the same persistently exciting tail inside [S/2,2S] (uniform noise, random walk or sinusoid+noise; exactly constant tails only for all-linear chains). Oracle: with T = T(view,N) from the documented pole radius, |out_A-out_B| <= tol*scale at every delivery in [T,2T] (tol 1e-9 linear, 1e-6 ratio-type; scale = max(S or output range, largest |out| in the window)). Mode 'bounded' (1 of 8): one replica, 1e5 (thorough 2e5, 5% 1e6) deliveries of a feed bounded by S in any of the 14 shapes; every output finite and within 1e6*S (linear) or the analytic bound 5 / 1 / ln199 (ratio-type). distinct = distinct (topology, feed lengths); non-trivial = prefixes actually differ and the window was compared, or a bounded run reached 1e5 deliveries."
             .into()
     }
     fn assumptions(&self) -> Vec<String> {
